@@ -13,9 +13,10 @@
 (*   drift        where the transcription OpModifies in SandboxRules and   *)
 (*                the real function disagree (spec drift, not a violation) *)
 (*   unclassified public names of this Python the semantics does not know  *)
-(* and checks, as the design-level part, that the transcription shows the  *)
-(* same uncovered set (TLC exhibits the defect of the first-match lookup)  *)
-(* and that the repaired lookup FixModifies covers exactly the mutators.   *)
+(* and checks, as the design-level part, that the transcription OpModifies  *)
+(* (any matching row) covers exactly the mutators, and lists what the      *)
+(* lookup shipped before f0317ed (LegacyModifies, first matching row       *)
+(* decides) left uncovered -- TLC exhibits findings F8 / F9.               *)
 (***************************************************************************)
 EXTENDS SandboxRules, Json, IOUtils
 
@@ -33,9 +34,9 @@ Report ==
                              : k \in ContainerKinds},
      mutators     |-> [kind \in ContainerKinds |-> Mutators(kind)],
      methods      |-> [kind \in ContainerKinds |-> Methods(kind)],
-     design_uncovered |-> Uncovered(OpModifies),
-     fixed_uncovered  |-> Uncovered(FixModifies),
-     fixed_overblocked |-> Overblocked(FixModifies)]
+     legacy_uncovered |-> Uncovered(LegacyModifies),
+     op_uncovered     |-> Uncovered(OpModifies),
+     op_overblocked   |-> Overblocked(OpModifies)]
 
 ASSUME PrintT(ToJson(Report))
 
@@ -45,6 +46,7 @@ D == INSTANCE SandboxDataMC
 Spec == D!Spec
 C19_ClassificationSound == D!C19_ClassificationSound
 
-\* the repaired lookup is exact on the four builtin kinds
-C19_FixCoversExactly == Uncovered(FixModifies) = {} /\ Overblocked(FixModifies) = {}
+\* the transcribed lookup is exact on the four builtin kinds (constant-level: evaluated once)
+OpExact == Uncovered(OpModifies) = {} /\ Overblocked(OpModifies) = {}
+C19_OperationalLookupExact == OpExact
 =============================================================================
